@@ -5,6 +5,19 @@ STUBS = []
 OUTSIDE = []
 ASSUMPTIONS = []
 
+COPY_LOOPS = 'in_bytes.0:%d,w_set_data.0:%d,w_get_data.0:%d,verif_memset_loop.0:%d,harness.0:%d'
+P = '_ZN5phosg5Image'
+OPFN = {'fill': [P + '9fill_rectEllllmmmm'], 'blit': [P + '4blitERKS0_llllll'], 'maskcolor': [P + '9mask_blitERKS0_llllllmmm'],
+        'maskdst': [P + '13mask_blit_dstERKS0_llllllmmm'], 'maskimg': [P + '9mask_blitERKS0_llllllS2_'],
+        'blend': [P + '10blend_blitERKS0_llllll'], 'blendalpha': [P + '10blend_blitERKS0_llllllm'],
+        'custom32': [P + '11custom_blitERKS0_llllllSt8functionIFvRjjEE'], 'custom64': [P + '11custom_blitERKS0_llllllSt8functionIFvRmS4_S4_S4_mmmmEE']}
+
+
+def loops(fns, bound, nloops=4):
+    # explicit per-loop bounds for the pixel loops of the code under test (unwinding assertions stay on: too small = reported)
+    return ','.join('%s.%d:%d' % (f, i, bound) for f in fns for i in range(nloops))
+
+
 def queries(tier):
     qs = []
     qs.append(dict(name='clamp_fullrange', unit='img', harness='h_clamp.c', defs={}, unwind=8, timeout=600, mem_gb=6, backend='cvc5',
@@ -28,10 +41,51 @@ def queries(tier):
             nm += '_s%dx%da%d' % (SW, SH, SA)
         if op == 'maskimg':
             defs.update(MW=MW, MH=MH); nm += '_m%dx%d' % (MW, MH)
-        return dict(name=nm, unit='img', harness='h_ops.c', defs=defs, unwind=max(DW, DH, SW, SH) + 3,
-                    unwindset='in_bytes.0:%d,w_set_data.0:%d,w_get_data.0:%d,verif_memset_loop.0:%d,harness.0:%d' % (n, n, n, n, n), timeout=900, mem_gb=8, object_bits=12,
+        # the pixel loops of the operation run over the CLIPPED rectangle: at most min(dest,source) iterations per axis
+        it = (max(DW, DH) if op == 'fill' else max(min(DW, SW), min(DH, SH))) + 1
+        return dict(name=nm, unit='img', harness='h_ops.c', defs=defs, unwind=6,
+                    unwindset=COPY_LOOPS % ((n,) * 5) + ',' + loops(OPFN[op], it), timeout=900, mem_gb=8, object_bits=12,
                     desc='%s: checked pixel of a %dx%d (alpha=%d) destination equals the per-pixel reference; source %dx%d (alpha=%d); all six rectangle parameters in [-3,size+3]' % (op, DW, DH, DA, SW, SH, SA),
                     bounds='dest %dx%d, source %dx%d, 8-bit channels, x,y,w,h,sx,sy in [-3,size+3], opaque alpha only' % (DW, DH, SW, SH))
+    def hvq(kind, W, H, A, dash):
+        n = W * H * (3 + A) + 2
+        fn = P + ('20draw_horizontal_lineEllllmmmm' if kind == 0 else '18draw_vertical_lineEllllmmmm')
+        return dict(name='%sline_%dx%da%d_dash%d' % ('hv'[kind], W, H, A, dash), unit='img', harness='h_hvline.c', defs={'KIND': kind, 'W': W, 'H': H, 'ALPHA': A, 'DASH': dash}, unwind=6,
+                    unwindset=COPY_LOOPS % ((n,) * 5) + ',' + loops([fn], (W if kind == 0 else H) + 8, 1), timeout=900, mem_gb=8, object_bits=12,
+                    desc='draw_%s_line on %dx%d (alpha=%d), dash %d: never throws, nothing off the segment changes, full segment drawn when both ends are inside' % (('horizontal', 'vertical')[kind], W, H, A, dash),
+                    bounds='canvas %dx%d, coordinates in [-3,size+3], dash length %d' % (W, H, dash))
+    def dlq(W, H, A, dx, dy):
+        n = W * H * (3 + A) + 2
+        return dict(name='drawline_%dx%da%d_dx%d_dy%d' % (W, H, A, dx, dy), unit='img', harness='h_drawline.c', defs={'W': W, 'H': H, 'ALPHA': A, 'DX': '(%d)' % dx, 'DY': '(%d)' % dy}, unwind=max(W, H, 4) + 2,
+                    unwindset=COPY_LOOPS % ((n,) * 5) + ',harness.2:%d' % (W * H + 2), timeout=900, mem_gb=8, object_bits=12,
+                    desc='draw_line direction (%d,%d), start anywhere in [-3,size+3]^2 on %dx%d: marked pixels on the ideal segment; both ends inside => connected path of max(|dx|,|dy|)+1 pixels' % (dx, dy, W, H),
+                    bounds='canvas %dx%d, direction (%d,%d), start in [-3,size+3]^2' % (W, H, dx, dy))
+    BK = ['fill', 'blit', 'blendblit', 'blendblit_alpha']
+    def blq(kind, DA, SA, CW, chan, backend='kissat', timeout=600):
+        return dict(name='blend1_%s_da%d_sa%d_cw%d_ch%d' % (BK[kind], DA, SA, CW, chan), unit='img', harness='h_blend.c', defs={'KIND': kind, 'DA': DA, 'SA': SA, 'CW': CW, 'CHAN': chan}, unwind=18,
+                    timeout=timeout, mem_gb=8, object_bits=12, backend=backend,
+                    desc='%s on one pixel (%d-bit channels, dest alpha=%d, source alpha=%d): channel %d equals the truncating alpha-blend formula' % (BK[kind], CW, DA, SA, chan),
+                    bounds='1x1 canvases, all channel values, all alphas')
+    if tier == 'quick':
+        qs += [blq(0, 1, 1, 8, 0), blq(0, 1, 1, 8, 3), blq(1, 1, 1, 8, 1), blq(1, 1, 1, 8, 3), blq(2, 1, 1, 8, 2), blq(2, 1, 1, 8, 3), blq(3, 1, 1, 8, 0), blq(3, 1, 1, 8, 3)]
+    IK = ['mirrorh', 'mirrorv', 'invert', 'alpha', 'width', 'copy', 'assign', 'move']
+    def ivq(kind, W, H, A, CW, CW2=16):
+        n = W * H * 4 * max(CW, CW2 if kind == 4 else 8) // 8 + 2
+        defs = {'KIND': kind, 'W': W, 'H': H, 'ALPHA': A, 'CW': CW}
+        nm = 'inv_%s_%dx%da%d_cw%d' % (IK[kind], W, H, A, CW)
+        if kind == 4:
+            defs['CW2'] = CW2; nm += 'to%d' % CW2
+        return dict(name=nm, unit='img', harness='h_invol.c', defs=defs, unwind=max(W * H * 4 + 2, 10),
+                    unwindset=(COPY_LOOPS % ((n,) * 5)) + ',verif_memcpy_loop.0:%d' % n, timeout=900, mem_gb=8, object_bits=12,
+                    desc='%s on %dx%d (alpha=%d, %d-bit): single-step model and round-trip identity / deep copy, one symbolic checked byte' % (IK[kind], W, H, A, CW),
+                    bounds='canvas %dx%d, all contents' % (W, H))
+    if tier == 'quick':
+        qs += [ivq(0, 3, 2, 1, 8), ivq(0, 2, 2, 0, 16), ivq(1, 2, 3, 0, 8), ivq(1, 1, 2, 1, 32), ivq(2, 2, 2, 1, 8), ivq(2, 2, 1, 0, 64),
+               ivq(3, 2, 2, 0, 8), ivq(3, 2, 1, 1, 16), ivq(4, 2, 2, 1, 8, 16), ivq(4, 2, 1, 0, 8, 64), ivq(4, 1, 2, 0, 16, 32), ivq(4, 1, 2, 0, 32, 8),
+               ivq(5, 2, 2, 1, 8), ivq(5, 0, 0, 0, 8), ivq(6, 2, 2, 0, 8), ivq(7, 2, 2, 1, 16)]
+    if tier == 'quick':
+        qs += [hvq(0, 3, 2, 1, 0), hvq(0, 3, 2, 0, 2), hvq(1, 2, 3, 1, 1), hvq(1, 2, 3, 0, 0)]
+        qs += [dlq(4, 4, 0, 3, 1), dlq(4, 4, 1, -2, 3), dlq(3, 3, 0, 0, 0), dlq(4, 3, 0, 2, -1), dlq(4, 4, 0, -3, -3)]
     if tier == 'quick':
         for A in (0, 1):
             qs.append(opq('fill', 3, 3, A, 0, 0, 0))
